@@ -17,6 +17,9 @@ package suites
 //             for every eps in [0, 5 ms] (wd+cost-since <= 0, or its residue mod 10 ms is
 //             > 5 ms; the 8 s threshold is a multiple of 10 ms).  No tolerance is left to
 //             chance: a slow machine repeats the call, it cannot change the observation.
+//   kind "m": hook VerifRateAt sets lastWrite = now - since and lastRate = now - sinceRate
+//             (negative = unset): the time forgiven is the time since the LATER of the two;
+//             same observation as "r" plus whether lastRate was advanced by the call.
 //
 // rate.wire: connected scenarios against a peer that timestamps every line.  Only lower
 // bounds on arrival times are ever required (a loaded machine makes things later, never
@@ -82,7 +85,7 @@ func c16PickX(r *rand.Rand, cost int64) int64 {
 }
 
 func c16GenArith(r *rand.Rand) Case {
-	if r.Intn(2) == 0 { // exact kind
+	if r.Intn(3) == 0 { // exact kind
 		var chars int64
 		switch r.Intn(6) {
 		case 0:
@@ -119,12 +122,31 @@ func c16GenArith(r *rand.Rand) Case {
 		if since < 0 || since > 60*c16Second {
 			continue
 		}
-		return c16ArithCase("r", wd, since, chars)
+		if r.Intn(2) == 0 {
+			return c16ArithCase("r", wd, since, chars)
+		}
+		// both times set: the later one (the smaller "ago") is `since`
+		other := since
+		switch r.Intn(5) {
+		case 0: // equal
+		case 1:
+			other = -1 // unset
+		case 2:
+			other = since + 1 + r.Int63n(1000)
+		default:
+			other = since + r.Int63n(30*c16Second)
+		}
+		c := c16ArithCase("m", wd, since, chars)
+		if r.Intn(2) == 0 {
+			return append(c, strconv.FormatInt(other, 10)) // lastWrite is the later one
+		}
+		c[2] = strconv.FormatInt(other, 10) // lastRate is the later one
+		return append(c, strconv.FormatInt(since, 10))
 	}
 }
 
 func c16RunArith(c Case) Result {
-	if len(c) != 4 {
+	if len(c) != 4 && !(len(c) == 5 && c[0] == "m") {
 		return Result{Obs: "?bad-args"}
 	}
 	wd, e1 := strconv.ParseInt(c[1], 10, 64)
@@ -140,6 +162,35 @@ func c16RunArith(c Case) Result {
 		nd, d = girc.VerifRateZero(time.Duration(wd), int(chars))
 		obs = fmt.Sprintf("%d %d", int64(nd), int64(d))
 		sig = "z"
+	} else if c[0] == "m" {
+		sinceRate, e4 := strconv.ParseInt(c[4], 10, 64)
+		if e4 != nil {
+			return Result{Obs: "?bad-args"}
+		}
+		adv := false
+		for try := 0; try < 5000; try++ {
+			t0 := time.Now()
+			nd, d, adv = girc.VerifRateAt(time.Duration(wd), time.Duration(since), time.Duration(sinceRate), int(chars))
+			if int64(time.Since(t0)) <= c16Eps {
+				break
+			}
+		}
+		obs = fmt.Sprintf("%d %d %s", int64(nd)/c16Quantum, int64(d), B(adv))
+		sig = "m"
+		switch {
+		case since < 0 || sinceRate < 0:
+			sig += "/unset"
+		case since < sinceRate:
+			sig += "/write-later"
+		case since > sinceRate:
+			sig += "/rate-later"
+		default:
+			sig += "/equal"
+		}
+		if !adv {
+			oracle := "rate-lastrate-not-advanced: rate() left lastRate before the time of the call"
+			return Result{Obs: obs, Oracle: oracle, Sig: sig}
+		}
 	} else {
 		for try := 0; try < 5000; try++ {
 			t0 := time.Now()
@@ -798,6 +849,11 @@ func init() {
 					}
 				}
 				out = append(out, c16ArithCase("z", 0, 0, chars))
+			}
+			// the later of lastWrite / lastRate is the one that counts, either way round
+			for _, p := range [][2]int64{{2 * c16Second, 5 * c16Second}, {5 * c16Second, 2 * c16Second}, {3 * c16Second, 3 * c16Second}, {-1, 2 * c16Second}, {2 * c16Second, -1}} {
+				// writeDelay 9 s, cost 1.3 s, 2 s forgiven -> 8.3 s: held; 5 s forgiven -> 5.3 s: not held
+				out = append(out, append(c16ArithCase("m", 9*c16Second+c16Eps+1, p[0], 30), strconv.FormatInt(p[1], 10)))
 			}
 			// around the threshold on the real clock: at or below 8 s exactly is never held
 			for _, wd := range []int64{0, 7 * c16Second, 8 * c16Second, 20 * c16Second} {
